@@ -30,6 +30,9 @@ func parseThrift(w *W, sch *TSchema, po thrift.Options) *thrift.TypeDescriptor {
 type writeOpts struct {
 	WriteRequire, WriteDefault, WriteOptional, DisallowUnknown bool
 	SetOptionalBitmap, UseDefaultValue                         bool
+	// NoOptionalDefaultRule drops the clause "optional fields are also written whenever they carry a
+	// parsed default" - used only to *characterise* a mismatch (known finding F15), never as the oracle.
+	NoOptionalDefaultRule bool
 }
 
 type expectErr int
@@ -90,7 +93,9 @@ func expectJ2T(b []byte, v *TVal, o writeOpts) ([]byte, expectErr) {
 			case reqDefault:
 				write = o.WriteDefault
 			case reqOptional:
-				write = o.WriteOptional
+				// property C16: "optional fields only when the descriptor was parsed to track optional
+				// fields, and then also whenever they carry a parsed default"
+				write = o.WriteOptional || (f.Default != nil && o.UseDefaultValue && !o.NoOptionalDefaultRule)
 			}
 			if !write {
 				continue
